@@ -40,6 +40,7 @@ func (i Idh) get(h string) string {
 // Q is the abstract cell of Forward.tla.
 type Q struct {
 	Fam     string `json:"fam"`
+	Conn    string `json:"conn"`
 	Mode    string `json:"mode"`
 	Sess    Sess   `json:"sess"`
 	Idh     Idh    `json:"idh"`
@@ -417,6 +418,33 @@ func frame(q Q, b []byte, r *rand.Rand) ([]HdrLine, []byte, []int) {
 
 // wire assembles the request bytes.
 func wire(m, tgt, host string, lines []HdrLine, tail []byte) []byte {
+	return wireConn(m, tgt, host, lines, tail, "close")
+}
+
+// connTokens is what the client's Connection header names besides "close".
+func connTokens(q Q, r *rand.Rand) string {
+	var names []string
+	switch q.Conn {
+	case "id":
+		names = []string{idName["user"], idName["email"], idName["groups"], idName["token"]}
+	case "sig":
+		names = []string{"Sso-Signature", "kid", "Gap-Signature"}
+	case "cov":
+		names = append([]string{}, covNames...)
+	default:
+		return "close"
+	}
+	out := []string{"close"}
+	for _, n := range names {
+		if r.Intn(3) == 0 {
+			n = oddCase(n, r)
+		}
+		out = append(out, n)
+	}
+	return strings.Join(out, pick(r, ", ", ","))
+}
+
+func wireConn(m, tgt, host string, lines []HdrLine, tail []byte, conn string) []byte {
 	var b bytes.Buffer
 	fmt.Fprintf(&b, "%s %s HTTP/1.1\r\nHost: %s\r\n", m, tgt, host)
 	for _, l := range lines {
@@ -428,7 +456,7 @@ func wire(m, tgt, host string, lines []HdrLine, tail []byte) []byte {
 		b.WriteString(l.Value)
 		b.WriteString("\r\n")
 	}
-	b.WriteString("Connection: close\r\n\r\n")
+	b.WriteString("Connection: " + conn + "\r\n\r\n")
 	b.Write(tail)
 	return b.Bytes()
 }
